@@ -760,7 +760,9 @@ def tagdict(p):
 
 def oracle_pairsum(gs, rs, horizon):
     col = {s: i for i, s in enumerate(gs['species'])}
-    sums = [m for m in gs['modules'] if m[0] == 'psum']
+    # a summand that reads a velocity is evaluated mid-step on the predictor velocity v + lambda dt f/m, which the
+    # dump (taken after integrateStep2) does not show: such modules are covered by the model comparison only
+    sums = [m for m in gs['modules'] if m[0] == 'psum' and not any(uses_vel(e) for e in m[7:10])]
     if not sums: return 'n/a'
     for s in rs[:horizon + 1]:
         ps = real_particles(s)
